@@ -121,6 +121,87 @@ fn check_history(ctx: &mut Ctx, rep: &mut Report, drv: &mut Driver, ops: &[Op], 
 	}
 	let _ = iter_txt;
 	let real_iter: Vec<String> = dn.iter().map(|(t, v)| list(&[DnT::of_real(t).sexp(), DnV::of_real(v).sexp()])).collect();
+	// ... against names built directly from the enumeration: in the same order (must be equal
+	// whatever the edit history was), reversed and rotated (equal only if the enumeration is)
+	let direct = |order: &[(DnT, DnV)]| {
+		let mut d = DistinguishedName::new();
+		for (t, v) in order {
+			d.push(t.real(), v.real().unwrap());
+		}
+		d
+	};
+	let same = direct(&abs);
+	if same != dn || dn != same {
+		rep.violate("C20:equality", "a name is not == to a name built directly with the same enumeration", format!("history: {}\nenumeration: {:?}", line, expect_iter));
+	}
+	let mut rev = abs.clone();
+	rev.reverse();
+	let mut rot = abs.clone();
+	if !rot.is_empty() {
+		rot.rotate_left(1);
+	}
+	for (what, other) in [("reversed", &rev), ("rotated", &rot)] {
+		let eq_enum = *other == abs;
+		let o = direct(other);
+		rep.count(if eq_enum { "eq_permuted_same" } else { "eq_permuted_differs" });
+		if (o == dn) != eq_enum || (dn == o) != eq_enum {
+			rep.violate("C20:equality", "== of two names differs from equality of their enumerations", format!("history: {}\nagainst the same attributes pushed in {} order: == gives {}, enumerations equal: {}", line, what, o == dn, eq_enum));
+		}
+	}
+	// the encoded name after *every* edit, with generation interleaved: a certificate generated
+	// between two edits must not influence what is encoded after the second
+	if ops.len() <= 12 || ops.len() % 7 == 0 {
+		let mut live = CertificateParams::default();
+		live.distinguished_name = DistinguishedName::new();
+		live.serial_number = Some(SerialNumber::from_slice(&[1]));
+		let mut cur: Vec<(DnT, DnV)> = Vec::new();
+		let subject_of = |p: &CertificateParams| -> Option<Vec<u8>> {
+			let cert = std::panic::catch_unwind(std::panic::AssertUnwindSafe(|| p.clone().self_signed(&ctx.ed_key))).ok()?.ok()?;
+			let (tbs, _, _) = crate::der::split_signed(cert.der())?;
+			let (t, _) = crate::der::read_tlv(&tbs)?;
+			Some(crate::der::children(t.content)?[5].whole.to_vec())
+		};
+		for (k, op) in ops.iter().enumerate() {
+			match op {
+				Op::Push(t, v) => {
+					live.distinguished_name.push(t.real(), v.real().unwrap());
+					match cur.iter_mut().find(|e| &e.0 == t) {
+						Some(e) => e.1 = v.clone(),
+						None => cur.push((t.clone(), v.clone())),
+					}
+				},
+				Op::Remove(t) => {
+					live.distinguished_name.remove(t.real());
+					cur.retain(|e| &e.0 != t);
+				},
+				Op::Get(_) => continue,
+			}
+			let mut fresh = CertificateParams::default();
+			fresh.distinguished_name = direct(&cur);
+			fresh.serial_number = Some(SerialNumber::from_slice(&[1]));
+			// a request is generated from the live object itself (by reference), a certificate from a clone
+			let live_req = {
+				let saved = live.serial_number.take();
+				let r = std::panic::catch_unwind(std::panic::AssertUnwindSafe(|| live.serialize_request(&ctx.ed_key))).ok().and_then(|r| r.ok()).and_then(|c| {
+					let (info, _, _) = crate::der::split_signed(c.der())?;
+					let (t, _) = crate::der::read_tlv(&info)?;
+					Some(crate::der::children(t.content)?[1].whole.to_vec())
+				});
+				live.serial_number = saved;
+				r
+			};
+			let (a, b) = (subject_of(&live), subject_of(&fresh));
+			if live_req.is_some() && live_req != b {
+				rep.violate("C20:encoded-name-follows-edits", "the subject of a request generated after an edit (with requests generated between the edits) is not the enumeration at that point", format!("history: {}\nafter operation {}: encoded {:?}\nexpected {:?}", line, k, live_req.map(|x| hex(&x)), b.clone().map(|x| hex(&x))));
+				break;
+			}
+			rep.count("encoded_after_each_edit");
+			if a != b {
+				rep.violate("C20:encoded-name-follows-edits", "the subject encoded after an edit (with certificates generated between the edits) is not the enumeration at that point", format!("history: {}\nafter operation {}: encoded {:?}\nexpected (name built directly from the enumeration) {:?}", line, k, a.map(|x| hex(&x)), b.map(|x| hex(&x))));
+				break;
+			}
+		}
+	}
 	*prev = Some((dn, tagged("iter", &real_iter)));
 }
 
